@@ -62,10 +62,8 @@ def rule_names(res):
 WHY_MISSED = {
     "C07_1": "prox_log_sum closed form: global optimality among stationary points is not claimed (§4 C07)",
     "C12_2": "neutralised by fix 712696b (the patched tree no longer misbehaves; kept for the record)",
-    "C12_3": "softmax shifted by the global maximum: exp underflow, numeric (§4 C12)",
     "C07_11": "prox_05 threshold constant: optimality among stationary candidates of a closed form is not claimed (§4 C07)",
     "C09_11": "Logistic.raw_hessian rewritten in an algebraically equal form that cancels in floating point (§4 C09)",
-    "C12_10": "softmax without the max shift: overflow of exp, numeric (§4 C12)",
     "C06_12": "Cox forward recursion by subtraction: algebraically equal, catastrophic cancellation (§4 C06)",
     "C19_10": "value of the MCP prox at the fallback step (sign is decided by R-FALLBACK, the value is numeric)",
     "C11_11": "Cox times replaced by ordinal ranks: a value transformation of y that only matters with ties (§4 C11)",
